@@ -169,4 +169,13 @@ CHECKS = {
         "note": "Trusted: exact decimal expansions of pool numbers computed with math/big in the harness; the pool is finite (boundary-focused), values outside it are not covered.",
         "technique": "TLA+ reference order checked by TLC; spec->code replay of the full sign matrix against bsonkit.Compare",
     },
+    "C20": {
+        "level": "exploration",
+        "text": "spec/gen/Robust.tla is the grammar of oddly shaped but well-typed input; TLC enumerates every cell (59 call forms x 40 argument classes x 15 path shapes x "
+                "4 or 10 document shapes) and the harness instantiates each cell and runs it under recover() against bsonkit/mongokit and, for a deterministic sample, "
+                "through the driver API with probe writes and a per-call watchdog; panics seen by the generators of the other checks are collected as well. The only "
+                "asserted outcome is: returns a result or an error, and the next call is served.",
+        "note": "The specification contributes the exhaustive grid, not an oracle. Documented panics ('lungo: ...') are excluded.",
+        "technique": "TLA+ grammar enumerated exhaustively by TLC (spec->code), every cell replayed on the real code under recover()",
+    },
 }
